@@ -1524,6 +1524,52 @@ func (c *Ctx) seqWrappers() {
 				}
 			}
 		}
+		// nothing else that writes is called (a second route to the content would bypass the worker's guards)
+		for _, b := range fn.Blocks {
+			for _, in := range b.Instrs {
+				cc := callCommon(in)
+				if cc == nil {
+					continue
+				}
+				cal := c.p.callee(cc)
+				if cal == nil || !c.p.inPkg(cal) || c.eff.pure(cal) {
+					continue
+				}
+				n := relName(cal)
+				if n == pr[1] || n == "(*stack).lock" || n == "(*stack).unlock" {
+					continue
+				}
+				problems = append(problems, c.p.instrPos(in)+": "+n+" (which writes) is called besides the worker "+pr[1])
+			}
+		}
+		// paths that do not go through the worker return zero values
+		if len(calls) == 1 {
+			for _, ret := range c.returnsOf(fn) {
+				for _, s := range fa.statesBefore(ret) {
+					if _, did := s.cep[calls[0]]; did {
+						continue
+					}
+					for k, rv := range ret.Results {
+						if c.p.isNamed(rv.Type(), "Stack") {
+							continue
+						}
+						t := fa.term(s, rv)
+						zero := (t.K == "C" && t.Const == nil)
+						if b, known := c.knownBool(fa, s, rv); known && !b && isBoolType(rv) {
+							zero = true
+						}
+						if t.K == "C" && t.Const != nil && t.Const.Kind() == constant.Int {
+							if v, ok := constInt64(t.Const); ok && v == 0 {
+								zero = true
+							}
+						}
+						if !zero {
+							problems = append(problems, fmt.Sprintf("result %d can be %s on a path that never reached the worker", k, t.key))
+						}
+					}
+				}
+			}
+		}
 		pos := c.p.pos(fn.Pos())
 		if len(problems) == 0 {
 			c.rep.ok("R-SEQ", pr[0], "wrapper", pos, "hands its arguments to "+pr[1]+" unchanged and returns the worker's results")
